@@ -8,8 +8,11 @@ package main
 import (
 	"bytes"
 	"context"
+	"encoding/base64"
 	"encoding/json"
 	"fmt"
+	"io"
+	"net/http"
 	"runtime/debug"
 	"sort"
 	"strings"
@@ -31,6 +34,8 @@ type scenario struct {
 	DSP     string   `json:"dsp"`
 	Down    string   `json:"down"`
 	Body    string   `json:"body"`
+	Entry   string   `json:"entry"`
+	Open    bool     `json:"open"`
 	Style   string   `json:"style"`
 	Cfg     string   `json:"cfg"`
 	KV      string   `json:"kv"`
@@ -44,11 +49,15 @@ type scenario struct {
 }
 
 type memDB struct {
-	m map[gmsl.PublicKeyLookupRequest]gmsl.PublicKeyLookupResult
+	m   map[gmsl.PublicKeyLookupRequest]gmsl.PublicKeyLookupResult
+	err error // the database (or fetcher) fails
 }
 
 func (d *memDB) FetcherName() string { return "memDB" }
 func (d *memDB) FetchKeys(_ context.Context, reqs map[gmsl.PublicKeyLookupRequest]spec.Timestamp) (map[gmsl.PublicKeyLookupRequest]gmsl.PublicKeyLookupResult, error) {
+	if d.err != nil {
+		return nil, d.err
+	}
 	out := map[gmsl.PublicKeyLookupRequest]gmsl.PublicKeyLookupResult{}
 	for r := range reqs {
 		if v, ok := d.m[r]; ok {
@@ -84,6 +93,12 @@ func (s *scenario) scenarioKey() string {
 	if s.NK == 2 {
 		k += "/keys=2/known=" + s.Known
 	}
+	if s.Entry != "direct" {
+		k += "/entry=" + s.Entry
+	}
+	if s.DS == "origin" {
+		k += "/receiver=origin"
+	}
 	if s.OSP == "mixed" {
 		k += "/originspelling=mixed"
 	}
@@ -105,7 +120,7 @@ func replay(seed int64, raw json.RawMessage) (res hx.Result) {
 	}
 	p := newPicker(seed, raw)
 	sort.Strings(s.Tampers)
-	nt := fmt.Sprintf("%s|%s|%s|%s|%s|nk=%d/%s|os=%s/%s|ds=%s/%s|%s|%v", strings.Join(s.Tampers, "+"), s.Body, s.Down, s.Cfg, s.KV, s.NK, s.Known, s.OS, s.OSP, s.DS, s.DSP, s.Style, s.Accept)
+	nt := fmt.Sprintf("%s|%s|%s|%s|%s|"+s.Entry+"|nk=%d/%s|os=%s/%s|ds=%s/%s|%s|%v", strings.Join(s.Tampers, "+"), s.Body, s.Down, s.Cfg, s.KV, s.NK, s.Known, s.OS, s.OSP, s.DS, s.DSP, s.Style, s.Accept)
 	fail := func(stage, what string, want, got interface{}) hx.Result {
 		return hx.Result{OK: false, NT: nt, Key: "C13/" + stage + "/" + s.scenarioKey(), What: what, Want: want, Got: got}
 	}
@@ -123,9 +138,22 @@ func replay(seed int64, raw json.RawMessage) (res hx.Result) {
 
 	// ---- concrete values of the abstract classes
 	origin := spell(pick(p, "origin", originNames[s.OS]), s.OSP)
-	primary := spell(destP[s.DS], s.DSP)
-	secondary := spell(destS[s.DS], s.DSP)
-	foreign := spell(pick(p, "foreign", destF[s.DS]), s.DSP)
+	dshape := s.DS
+	if dshape == "origin" {
+		dshape = "dns"
+	}
+	primary := spell(destP[dshape], s.DSP)
+	secondary := spell(destS[dshape], s.DSP)
+	foreign := spell(pick(p, "foreign", destF[dshape]), s.DSP)
+	if s.DS == "origin" {
+		primary = origin // the receiver is the origin itself
+	}
+	// "O2", the other server a tampered header may name: an unrelated known server, or (f) a near coincidence:
+	// the origin's own name with / without a port suffix, whose key record holds the origin's very key
+	otherOrigin, pubO2 := otherOriginName, pubOtherOf()
+	if !strings.HasPrefix(s.OS, "inv") && p.n("o2near", 2) == 0 {
+		otherOrigin, pubO2 = portVariant(origin), nil
+	}
 	dest := map[string]string{"P": primary, "S": secondary, "F": foreign}[s.Down]
 	uri := pick(p, "uri", uris[s.U])
 	keyID := pick(p, "keyid", keyIDs)
@@ -137,55 +165,106 @@ func replay(seed int64, raw json.RawMessage) (res hx.Result) {
 		body = pick(p, "body", bodiesArr)
 	case "nonutf8":
 		body = bodyNonUTF8
+	case "emptyobj":
+		body = "{}"
+	case "null":
+		body = "null"
 	}
 	pub, priv := keyFrom("origin")
+	if pubO2 == nil {
+		pubO2 = pub
+	}
 	pubB, privB := keyFrom("origin next") // the origin's second key (key rotation)
 	pubOther, privOther := keyFrom("other")
 	sendable := s.Body != "nonutf8" && !strings.HasPrefix(s.OS, "inv") && s.DS != "invalid"
+	unsendable := hx.Result{OK: true, NT: "unsendable|" + s.Body + "|" + s.OS + "|" + s.DS + "|" + s.Entry}
 
+	sendDirect := func() ([]byte, *hx.Result) {
+		method := s.M
+		if p.n("lower", 4) == 0 {
+			method = strings.ToLower(method) // NewFederationRequest upper-cases
+		}
+		fr := fclient.NewFederationRequest(method, spec.ServerName(origin), spec.ServerName(dest), uri)
+		if body != "" {
+			var content interface{} = spec.RawJSON(body)
+			switch s.Body { // content boundaries through SetContent's own encoding
+			case "emptyobj":
+				content = struct{}{}
+			case "null":
+				content = nil
+			}
+			if err := fr.SetContent(content); err != nil {
+				if sendable {
+					r := fail("send", "SetContent failed: "+err.Error(), "sent", err.Error())
+					return nil, &r
+				}
+				r := unsendable
+				return nil, &r
+			}
+		}
+		if err := fr.Sign(spec.ServerName(origin), gmsl.KeyID(keyID), priv); err != nil {
+			if sendable {
+				r := fail("send", "Sign failed: "+err.Error(), "sent", err.Error())
+				return nil, &r
+			}
+			r := unsendable
+			return nil, &r
+		}
+		if s.NK == 2 {
+			if err := fr.Sign(spec.ServerName(origin), gmsl.KeyID(nextKeyID), privB); err != nil {
+				if sendable {
+					r := fail("send", "second Sign failed: "+err.Error(), "sent", err.Error())
+					return nil, &r
+				}
+				r := unsendable
+				return nil, &r
+			}
+		}
+		hr, err := fr.HTTPRequest()
+		if err != nil {
+			if sendable {
+				r := fail("send", fmt.Sprintf("HTTPRequest failed for %s %q origin %q destination %q: %v", s.M, uri, origin, dest, err), "sent", err.Error())
+				return nil, &r
+			}
+			r := unsendable
+			return nil, &r
+		}
+		var buf bytes.Buffer
+		if err := hr.Write(&buf); err != nil {
+			if sendable {
+				r := fail("send", "Request.Write failed: "+err.Error(), "sent", err.Error())
+				return nil, &r
+			}
+			r := unsendable
+			return nil, &r
+		}
+		// (d) the request object is reusable: a second HTTPRequest() writes the same message
+		var buf2 bytes.Buffer
+		if hr2, err2 := fr.HTTPRequest(); err2 != nil || hr2.Write(&buf2) != nil || !sameMessage(buf.Bytes(), buf2.Bytes()) {
+			r := fail("send-twice", fmt.Sprintf("a second HTTPRequest() on the same signed request differs from the first (error %v): %q then %q", err2, clip(buf.String()), clip(buf2.String())), "same message", "different")
+			return nil, &r
+		}
+		return buf.Bytes(), nil
+	}
 	// ---- Compose, Sign, Emit: the real sender
-	method := s.M
-	if p.n("lower", 4) == 0 {
-		method = strings.ToLower(method) // NewFederationRequest upper-cases
-	}
-	fr := fclient.NewFederationRequest(method, spec.ServerName(origin), spec.ServerName(dest), uri)
-	if body != "" {
-		if err := fr.SetContent(spec.RawJSON(body)); err != nil {
+	var wireBytes []byte
+	if s.Entry == "client" {
+		wb, u, b, err := sendViaClient(p, s.M, s.U, origin, dest, keyID, priv)
+		if err != nil {
 			if sendable {
-				return fail("send", "SetContent failed: "+err.Error(), "sent", err.Error())
+				return fail("send", fmt.Sprintf("FederationClient could not send %s %s from %q to %q: %v", s.M, s.U, origin, dest, err), "sent", err.Error())
 			}
-			return hx.Result{OK: true, NT: "unsendable|" + s.Body + "|" + s.OS + "|" + s.DS}
+			return unsendable
 		}
-	}
-	if err := fr.Sign(spec.ServerName(origin), gmsl.KeyID(keyID), priv); err != nil {
-		if sendable {
-			return fail("send", "Sign failed: "+err.Error(), "sent", err.Error())
+		wireBytes, uri, body = wb, u, b
+	} else {
+		wb, r := sendDirect()
+		if r != nil {
+			return *r
 		}
-		return hx.Result{OK: true, NT: "unsendable|" + s.Body + "|" + s.OS + "|" + s.DS}
+		wireBytes = wb
 	}
-	if s.NK == 2 {
-		if err := fr.Sign(spec.ServerName(origin), gmsl.KeyID(nextKeyID), privB); err != nil {
-			if sendable {
-				return fail("send", "second Sign failed: "+err.Error(), "sent", err.Error())
-			}
-			return hx.Result{OK: true, NT: "unsendable|" + s.Body + "|" + s.OS + "|" + s.DS}
-		}
-	}
-	hr, err := fr.HTTPRequest()
-	if err != nil {
-		if sendable {
-			return fail("send", fmt.Sprintf("HTTPRequest failed for %s %q origin %q destination %q: %v", s.M, uri, origin, dest, err), "sent", err.Error())
-		}
-		return hx.Result{OK: true, NT: "unsendable|" + s.Body + "|" + s.OS + "|" + s.DS}
-	}
-	var buf bytes.Buffer
-	if err := hr.Write(&buf); err != nil {
-		if sendable {
-			return fail("send", "Request.Write failed: "+err.Error(), "sent", err.Error())
-		}
-		return hx.Result{OK: true, NT: "unsendable|" + s.Body + "|" + s.OS + "|" + s.DS}
-	}
-	w, err := parseWire(buf.Bytes())
+	w, err := parseWire(wireBytes)
 	if err != nil {
 		machinery(err.Error())
 	}
@@ -201,7 +280,7 @@ func replay(seed int64, raw json.RawMessage) (res hx.Result) {
 			if sendable {
 				return fail("send", err.Error(), "canonical header", a)
 			}
-			return hx.Result{OK: true, NT: "unsendable|" + s.Body + "|" + s.OS + "|" + s.DS}
+			return unsendable
 		}
 		switch *h.key {
 		case keyID:
@@ -221,6 +300,8 @@ func replay(seed int64, raw json.RawMessage) (res hx.Result) {
 	dup := false
 	bearer := false
 	nohdr := false
+	split := false
+	readErr := false
 	keyOtherKnown := false
 	for _, t := range s.Tampers {
 		switch t {
@@ -319,6 +400,28 @@ func replay(seed int64, raw json.RawMessage) (res hx.Result) {
 			x.key = nil
 		case "scheme":
 			x.scheme = pick(p, "scheme", []string{"X-Matrix2", "Bearer", "Basic", "X-Matri", "XMatrix"})
+		case "split_header":
+			split = true
+		case "scheme_case":
+			x.scheme = pick(p, "schemecase", []string{"X-MATRIX", "x-matrix", "X-matrix"})
+		case "sig_respell":
+			// the same signature bytes in padded or URL-safe base64
+			raw, err := base64.RawStdEncoding.DecodeString(*x.sig)
+			if err != nil {
+				return fail("send", "the sig parameter written by HTTPRequest is not unpadded base64: "+*x.sig, "base64", *x.sig)
+			}
+			v := base64.StdEncoding.EncodeToString(raw)
+			if u := base64.RawURLEncoding.EncodeToString(raw); u != *x.sig && p.n("respell", 2) == 0 {
+				v = u
+			}
+			x.sig = &v
+		case "body_notjson":
+			w.body = []byte(pick(p, "notjson", []string{`{"a":1,}`, `hello`, `{"a":1} x`, `{'a':1}`, `{"a":1`}))
+			if _, ok := w.get("Content-Type"); !ok {
+				w.set("Content-Type", "application/json")
+			}
+		case "body_readerr":
+			readErr = true
 		case "dup_header":
 			dup = true
 		case "second_origin":
@@ -337,7 +440,8 @@ func replay(seed int64, raw json.RawMessage) (res hx.Result) {
 	}
 	w.del("Authorization")
 	w.del("User-Agent")
-	if bearer {
+	bearerLast := bearer && p.n("bearerpos", 2) == 0
+	if bearer && !bearerLast {
 		w.headers = append(w.headers, hline{"Authorization", "Bearer c2VjcmV0"})
 	}
 	if !nohdr {
@@ -345,7 +449,13 @@ func replay(seed int64, raw json.RawMessage) (res hx.Result) {
 			w.headers = append(w.headers, hline{"Authorization", xb.render(s.Style)})
 			xb = nil
 		}
-		w.headers = append(w.headers, hline{"Authorization", x.render(s.Style)})
+		if split {
+			for _, l := range x.renderSplit(s.Style) {
+				w.headers = append(w.headers, hline{"Authorization", l})
+			}
+		} else {
+			w.headers = append(w.headers, hline{"Authorization", x.render(s.Style)})
+		}
 		if dup {
 			w.headers = append(w.headers, hline{"Authorization", x.render(s.Style)})
 		}
@@ -365,11 +475,22 @@ func replay(seed int64, raw json.RawMessage) (res hx.Result) {
 			w.headers = append(w.headers, hline{"Authorization", y.render(s.Style)})
 		}
 	}
-	sreq, err := w.serverRequest()
-	if err != nil {
-		// the tampered text is not HTTP any more: a harness matter, never a verdict
-		machinery(fmt.Sprintf("http.ReadRequest rejects the transmitted text: %v\n%q", err, w.bytes()))
+	if bearerLast {
+		w.headers = append(w.headers, hline{"Authorization", "Bearer c2VjcmV0"})
 	}
+	serverRequest := func() *http.Request {
+		sreq, err := w.serverRequest()
+		if err != nil {
+			// the tampered text is not HTTP any more: a harness matter, never a verdict
+			machinery(fmt.Sprintf("http.ReadRequest rejects the transmitted text: %v\n%q", err, w.bytes()))
+		}
+		if readErr {
+			// the connection breaks while the body is read
+			sreq.Body = io.NopCloser(io.MultiReader(bytes.NewReader(w.body[:len(w.body)/2]), failingReader{}))
+		}
+		return sreq
+	}
+	sreq := serverRequest()
 
 	// ---- Receive: the real receiver
 	now := time.Now()
@@ -416,6 +537,11 @@ func replay(seed int64, raw json.RawMessage) (res hx.Result) {
 			vu = now.Add(day)
 		}
 		put(origin, keyID, pub, vu, now.Add([]time.Duration{hour, 2 * day}[p.n("kve", 2)]))
+	case s.KV == "fetched", s.KV == "fetcherr": // no record in the database
+	case s.KV == "refreshed": // a lapsed record in the database
+		put(origin, keyID, pub, now.Add(-[]time.Duration{hour, 30 * day}[p.n("kvd", 2)]), zero)
+	case s.KV == "dberror":
+		put(origin, keyID, pub, now.Add(2*hour), zero)
 	case s.KV == "unknown":
 		put(origin, "ed25519:elsewhere", pub, now.Add(2*hour), zero)
 	case s.KV == "wrongkey":
@@ -426,18 +552,35 @@ func replay(seed int64, raw json.RawMessage) (res hx.Result) {
 	if knowsSecond {
 		put(origin, nextKeyID, pubB, now.Add(2*hour), zero)
 	}
-	put(otherOrigin, keyID, pubOther, now.Add(2*hour), zero)
+	if s.KV == "dberror" {
+		db.err = fmt.Errorf("key database unavailable") // whatever it holds
+	}
+	put(otherOrigin, keyID, pubO2, now.Add(2*hour), zero)
 	if keyOtherKnown {
 		put(origin, otherKeyID, pubOther, now.Add(2*hour), zero)
 	}
 	_ = privOther
 	ring := gmsl.KeyRing{KeyDatabase: db}
+	if knowsFirst {
+		// the key ring beyond its database: a fetcher that supplies the origin's current key, or fails
+		fresh := gmsl.PublicKeyLookupResult{VerifyKey: gmsl.VerifyKey{Key: spec.Base64Bytes(pub)}, ValidUntilTS: spec.AsTimestamp(now.Add(day))}
+		k := gmsl.PublicKeyLookupRequest{ServerName: spec.ServerName(origin), KeyID: gmsl.KeyID(keyID)}
+		switch s.KV {
+		case "fetched", "refreshed":
+			ring.KeyFetchers = []gmsl.KeyFetcher{&memDB{m: map[gmsl.PublicKeyLookupRequest]gmsl.PublicKeyLookupResult{k: fresh}}}
+		case "fetcherr":
+			ring.KeyFetchers = []gmsl.KeyFetcher{&memDB{err: fmt.Errorf("key server unreachable")}}
+		}
+	}
 	var isLocal func(spec.ServerName) bool
 	switch s.Cfg {
-	case "single":
-		if p.n("single", 2) == 0 {
-			isLocal = func(n spec.ServerName) bool { return string(n) == primary }
-		}
+	case "single": // no function: the default name only
+	case "singlefn":
+		isLocal = func(n spec.ServerName) bool { return string(n) == primary }
+	case "any":
+		isLocal = func(spec.ServerName) bool { return true }
+	case "nobody":
+		isLocal = func(spec.ServerName) bool { return false }
 	case "multi":
 		local := map[string]bool{primary: true, secondary: true, caseVariant(primary): true, caseVariant(secondary): true}
 		for _, n := range extraLocal {
@@ -456,12 +599,29 @@ func replay(seed int64, raw json.RawMessage) (res hx.Result) {
 		return fmt.Sprintf("signed %s %q origin=%q destination=%q body=%q key=%s%s; tamperings %v; transmitted %q; receiver default name %q, local-name function=%v, key database %s",
 			strings.ToUpper(s.M), uri, origin, dest, clip(string(signedBody)), keyID, map[bool]string{true: " and " + nextKeyID + " (receiver knows: " + s.Known + ")"}[s.NK == 2], s.Tampers, clip(string(w.bytes())), primary, isLocal != nil, s.KV)
 	}
-	if accepted != s.Accept {
+	// (d) nothing is carried from one verification to the next: the same message verified again with the same
+	// key ring gets the same answer
+	if got2, resp2 := fclient.VerifyHTTPRequest(serverRequest(), now, spec.ServerName(primary), isLocal, ring); resp2.Code != resp.Code || (got2 != nil) != (got != nil) {
+		return fail("unstable", fmt.Sprintf("the same message verified twice with the same key ring: status %d, then %d: %s", resp.Code, resp2.Code, desc()), resp.Code, resp2.Code)
+	}
+	if s.Open {
+		// the property sentence does not decide this one (scheme letter case, base64 spelling of sig): either
+		// verdict, but an accepted request must still be the signed one
+		if !accepted {
+			return hx.Result{OK: true, NT: nt + "|open:refused"}
+		}
+		s.Rep.M, s.Rep.U, s.Rep.O, s.Rep.D = "M", "U", "O", s.Down
+		s.Rep.B = map[bool]string{true: "none", false: "B"}[body == ""]
+		nt += "|open:accepted"
+	} else if accepted != s.Accept {
 		return fail(map[bool]string{true: "refused-by-spec-accepted-by-code", false: "accepted-by-spec-refused-by-code"}[accepted],
 			fmt.Sprintf("VerifyHTTPRequest status %d (%v), specification says accept=%v: %s", resp.Code, resp.JSON, s.Accept, desc()), s.Accept, accepted)
 	}
 	if !accepted {
 		return hx.Result{OK: true, NT: nt}
+	}
+	if s.Entry == "client" {
+		nt += "|" + strings.SplitN(uri, "?", 2)[0][:min(len(uri), 34)]
 	}
 	// the five reported fields: the model says which abstract value each must be; concretise and compare
 	wantM := strings.ToUpper(s.M)
@@ -507,3 +667,7 @@ func clip(s string) string {
 	}
 	return s
 }
+
+type failingReader struct{}
+
+func (failingReader) Read([]byte) (int, error) { return 0, fmt.Errorf("connection reset by peer") }
